@@ -113,8 +113,19 @@ def static_checks(tier):
     return [({'static': 'set-iteration-scan'}, {'verdict': Verdict.OK, 'detail': f'set-iteration sites found: {sorted(sites)} (all modelled)'})]
 
 
-def gen_case(rng, tier):
-    kind = rng.choice(['ambiguous', 'ambiguous', 'multifile', 'multifile', 'prefix-keys'])
+KINDS = ['ambiguous', 'multifile', 'prefix-keys', 'same-name-in-two-dirs', 'ambiguous', 'multifile']
+
+
+def gen_case(rng, tier, kind=None):
+    kind = kind or rng.choice(KINDS)
+    if kind == 'same-name-in-two-dirs':
+        # an include name that exists in two search directories - as identical copies, or with different text of the same
+        # length: whatever the assembler makes of it, it must make the same of it in every run and for every -I order
+        cfg = P.gen_cfg(rng, zones=False, bits=16)
+        body = P.render_file(random.Random(rng.randrange(1 << 30)), [{'k': 'data', 'w': 1, 'vals': [('num', rng.randint(16, 99))]}])
+        other = body if rng.random() < 0.6 else body.replace(body.strip()[-1], str((int(body.strip()[-1]) + 1) % 10) if body.strip()[-1].isdigit() else 'A')
+        files = {'main.asm': '.byte 1\n#include "dup.asm"\n.byte 2\n', 'lib/dup.asm': body, 'other/dup.asm': other}
+        return {'kind': kind, 'isa': P.make_isa(cfg), 'files': files, 'dirs': ['lib', 'other']}
     if kind == 'ambiguous':
         c = C13.gen_case(rng, tier)
         return {'kind': kind, 'isa': c['isa'], 'files': {'main.asm': c['asm']}, 'dirs': []}
@@ -144,7 +155,8 @@ def gen_case(rng, tier):
 
 
 def generate(rng, tier):
-    return [gen_case(rng, tier) for _ in range(10 if tier == 'quick' else 60)]
+    n = 12 if tier == 'quick' else 60
+    return [gen_case(rng, tier, KINDS[i % len(KINDS)]) for i in range(n)]     # every kind in every run
 
 
 def to_impl(case):
